@@ -632,7 +632,7 @@ func ruleArrBound(c *Ctx) {
 	// the growth call: a module method on the receiver taking (sliceHeader, int) returning sliceHeader, before the loop
 	var grow *ssa.Call
 	for _, cs := range callsIn(fn) {
-		if cs.Static != nil && P.isModuleFunc(cs.Static) && cs.Value() != nil && cs.Static.Signature.Recv() != nil && cs.Static.Signature.Results().Len() == 1 && typeKey(cs.Static.Signature.Results().At(0).Type()) == "avro.sliceHeader" {
+		if cs.Static != nil && P.isModuleFunc(cs.Static) && cs.Value() != nil && cs.Static.Signature.Results().Len() == 1 && typeKey(cs.Static.Signature.Results().At(0).Type()) == "avro.sliceHeader" {
 			grow = cs.Value()
 		}
 	}
@@ -679,10 +679,14 @@ func ruleArrBound(c *Ctx) {
 	h := grow.Call.StaticCallee()
 	hk := fnKey(h)
 	var inP, nP *ssa.Parameter
-	for _, p := range h.Params[1:] {
+	hps := h.Params
+	if h.Signature.Recv() != nil {
+		hps = hps[1:]
+	}
+	for _, p := range hps {
 		if typeKey(p.Type()) == "avro.sliceHeader" {
 			inP = p
-		} else {
+		} else if isBasicKind(p.Type(), types.Int) {
 			nP = p
 		}
 	}
